@@ -67,7 +67,8 @@ def _replay(name, law, other=None):
                      "bad = not (same(r2, [spec(c, a), spec(a2, b)], tol) and same(z2, spec(b, a), tol))",
             "kinds": "pb, qb = bool(v.get('p', False)), bool(v.get('q', False))\n"
                      "r1 = N.compute(np.bool_(pb), np.bool_(qb)); r2 = N.compute(np.array([pb, qb]), np.array([qb, qb])); r3 = N.compute([a, b], [c, a2]); r4 = N.compute((a, b), np.array([c, a2]))\n"
-                     "bad = not (same(r1, spec(float(pb), float(qb)), tol) and same(r2, [spec(float(pb), float(qb)), spec(float(qb), float(qb))], tol)"
+                     "r5 = N.compute(float(a), float(b)); r6 = N.compute(float(a), np.float64(b))\n"
+                     "bad = not (same(r5, spec(a, b), tol) and same(r6, spec(a, b), tol) and same(r1, spec(float(pb), float(qb)), tol) and same(r2, [spec(float(pb), float(qb)), spec(float(qb), float(qb))], tol)"
                      " and same(r3, [spec(a, c), spec(b, a2)], tol) and same(r4, [spec(a, c), spec(b, a2)], tol))",
         }[law]
         lines.append(chk)
@@ -115,7 +116,10 @@ def _ob_law(name, law, is_t, tier):
             if law == "kinds":
                 # operands that are not float64: crisp (boolean) degrees - whose own `+`/`*` are logical or/and - and Python sequences
                 P, Q = core.SymBool(z3.Bool("p")), core.SymBool(z3.Bool("q"))
-                return (N.compute(P, Q), N.compute(sym_array([P, Q]), sym_array([Q, Q])), N.compute([a, b], [c, a2]), N.compute((a, b), sym_array([c, a2])), P, Q)
+                S.pyfloats = True
+                py = core.PyRFloat.of          # plain Python floats (ZeroDivisionError semantics until NumPy touches them)
+                return (N.compute(P, Q), N.compute(sym_array([P, Q]), sym_array([Q, Q])), N.compute([a, b], [c, a2]), N.compute((a, b), sym_array([c, a2])), P, Q,
+                        N.compute(py(a), py(b)), N.compute(py(a), b), N.compute(a, b))
             if law == "arrays":
                 n = 2 if tier == "quick" else 3
                 xs = [rvar(f"x{i}") for i in range(n)]
@@ -177,7 +181,8 @@ def _ob_law(name, law, is_t, tier):
                     continue
                 ob.prove(pre, p, z3.And(is_val(e2[0], f(c.v, a.v)), is_val(e2[1], f(a2.v, b.v)), is_val(core.elements(z2)[0], f(b.v, a.v))), f"{name}/fresh-results", ins, rp)
             elif law == "kinds":
-                r1, r2, r3, r4, P, Q = r
+                r1, r2, r3, r4, P, Q, rpy, rmixed, rnp = r
+                ob.prove(pre, p, z3.And(same(tf(rpy), tf(rnp)), same(tf(rmixed), tf(rnp))), f"{name}/kinds/python-floats", ins, rp)
                 ins3 = dict(ins)
                 ins3.update({"p": P, "q": Q})
                 fz = lambda x: z3.If(x.e, z3.RealVal(1), z3.RealVal(0))   # noqa: E731
